@@ -268,7 +268,7 @@ def _sample(case):
 
 SUBS = [
     Sub('expand', oracle, _classify, strategy=lambda tier: _cases(),
-        budget={'quick': 150, 'thorough': 1000}, sample=_sample, case_timeout=120,
+        budget={'quick': 150, 'thorough': 5000}, sample=_sample, case_timeout=120,
         fingerprint=lambda c: fingerprint(c),
         require_tags=('placeholder', 'many-to-many', 'dropped-target-without-ili',
                       'dependency-missing', 'mode:unrestricted')),
